@@ -87,6 +87,35 @@ def atom_str(k):
     return str(k[1])
 
 
+def _lin_le(l1, l2):
+    """l1 <= l2 for all parameter values, for the two shapes that occur: l1 = min(X, c) with l2 = X, or l2 = max(X, c) with l1 = X
+    (X a linear form, c a constant)."""
+    d1, d2 = dict(l1), dict(l2)
+    if d1 == d2:
+        return True
+    def single_call(d, names):
+        ks = [k for k in d if k is not None]
+        if len(ks) == 1 and d.get(None, 0) == 0 and d[ks[0]] == 1 and ks[0][0] == 'call' and ks[0][1].split('::')[-1] in names:
+            return ks[0]
+        return None
+    c1 = single_call(d1, ('min',))
+    if c1 is not None and any(a is not None and dict(a) == d2 for a in c1[2]):
+        return True
+    c2 = single_call(d2, ('max',))
+    if c2 is not None and any(a is not None and dict(a) == d1 for a in c2[2]):
+        return True
+    return False
+
+
+def atom_le(k1, k2):
+    """Atom k1 never exceeds atom k2."""
+    if k1 is None or k2 is None:
+        return False
+    if k1[0] == 'pow2' and k2[0] == 'pow2':
+        return _lin_le(k1[1], k2[1])
+    return False
+
+
 def atom_params(k):
     if k is None:
         return set()
@@ -446,6 +475,16 @@ def estimate_twin(ctx):
                     # the estimate has no identical atom; if it has a different atom over the same parameter(s) the two
                     # are syntactically incomparable (e.g. a rounded size vs the raw size): not decided, not an alarm
                     ps = atom_params(k)
+                    # ordered atoms: 2^(min(x, c)) <= 2^(x) <= 2^(max(x, c))
+                    below = [k2 for k2 in Eb if k2 is not None and k2 != k and atom_le(k2, k)]
+                    above = [k2 for k2 in Eb if k2 is not None and k2 != k and atom_le(k, k2)]
+                    if any(Eb[k2] >= v for k2 in above):
+                        continue
+                    if below and not above:
+                        k2 = below[0]
+                        problems.append('%s bytes per unit of `%s` are allocated, the estimate counts %s per unit of `%s`, which is never larger and is '
+                                        'smaller as soon as the clamp applies' % (lin_str({None: v}), atom_str(k), lin_str({None: Eb[k2]}), atom_str(k2)))
+                        continue
                     if ps and any(k2 is not None and k2 != k and (atom_params(k2) & ps) for k2 in Eb):
                         undecided.append('%s vs %s' % (atom_str(k), ', '.join(atom_str(k2) for k2 in Eb if k2 is not None and atom_params(k2) & ps)))
                         continue
